@@ -1094,6 +1094,7 @@ where
 
             // Check on plugin results.
             if let Some(PluginOutput::Deny(error)) = plugin_output {
+                self.forget_buffered_statements();
                 self.reset_buffered_state();
                 error_response(&mut self.write, &error).await?;
                 plugin_output = None;
@@ -1445,6 +1446,7 @@ where
                             Some(PluginOutput::Deny(error)) => {
                                 error_response(&mut self.write, &error).await?;
                                 plugin_output = None;
+                                self.forget_buffered_statements();
                                 self.reset_buffered_state();
                                 continue;
                             }
@@ -1452,6 +1454,7 @@ where
                             Some(PluginOutput::Intercept(result)) => {
                                 write_all(&mut self.write, result).await?;
                                 plugin_output = None;
+                                self.forget_buffered_statements();
                                 self.reset_buffered_state();
                                 continue;
                             }
@@ -2065,6 +2068,22 @@ where
                     "Prepared statement `{}` doesn't exist",
                     client_given_name
                 )))
+            }
+        }
+    }
+
+    /// A batch that a plugin refused or answered itself never reached a server:
+    /// forget the statement names its Parse messages registered for this client,
+    /// or a later Bind would make us prepare and run the statement after all.
+    fn forget_buffered_statements(&mut self) {
+        for data in self.extended_protocol_data_buffer.iter() {
+            if let ExtendedProtocolData::Parse {
+                metadata: Some((parse, _)),
+                ..
+            } = data
+            {
+                self.prepared_statements
+                    .retain(|_, (registered, _)| !Arc::ptr_eq(registered, parse));
             }
         }
     }
